@@ -582,6 +582,30 @@ def run(ctx):
             # the Dask result itself must satisfy the property (first bin >= value / listed values)
             if fn == 'reclassify':
                 check_reclass_oracle(ctx, to_floats(a), case['bins'], case['new_values'], o_da, case, 'reclassify(dask)')
+    # natural_breaks fitted on a SAMPLE (num_sample < raster size): every finite cell must still get a class in [0, k-1],
+    # in order, whatever the sample happened to contain (optimality is only claimed for the un-sampled fit)
+    for i in range(12 if ctx.quick() else 150):
+        rng = ctx.rng
+        dtype = ['float64', 'int32', 'float32'][i % 3]
+        a = rand_raster(rng, dtype, rng.randint(3, 6), rng.randint(4, 6), ['small', 'wide', 'frac'][i % 3])
+        k = rng.randint(2, 6)
+        ns = rng.choice([2, 3, 5, 8])
+        finite = a[np.isfinite(a)] if a.dtype.kind == 'f' else a.ravel()
+        if finite.size == 0:
+            continue
+        case = dict(fn='natural_breaks', k=k, num_sample=ns, data=to_floats(a), dtype=dtype, kind='sampled', f32exact=False)
+        ctx.case(case)
+        ctx.count('natural_breaks/sampled/%s' % dtype)
+        try:
+            import contextlib
+            import io
+            with contextlib.redirect_stdout(io.StringIO()), contextlib.redirect_stderr(io.StringIO()):
+                res = classify.natural_breaks(xr.DataArray(a.copy(), dims=['y', 'x']), num_sample=ns, k=k)
+            out = to_floats(res.data)
+        except Exception as e:
+            ctx.violation('oracle', 'natural_breaks(num_sample=%d) raised %s: %s' % (ns, type(e).__name__, e), case)
+            continue
+        check_datadriven_oracle(ctx, 'natural_breaks_sampled', a, k, out, None, case)
     # several lazy classifications of ONE Dask raster with different parameters, computed in one dask.compute call
     # (graph keys must not collide: each result must equal its own NumPy result)
     import dask
@@ -680,6 +704,10 @@ def run(ctx):
                 rows, cols = rng.randint(1, 6), rng.randint(2, 6)
             a = rand_raster(rng, dtype, rows, cols, kind)
             k = rng.randint(2, 9 if fn != 'natural_breaks' else 4)
+            if fn != 'natural_breaks' and i % 2 == 1:
+                # all k >= 2: large class counts on a raster with enough cells (percentile / cut vectors of every length)
+                k = rng.randint(10, 64)
+                a = rand_raster(rng, dtype, rng.randint(8, 12), rng.randint(8, 12), 'rand' if dtype.startswith('float') else 'wide')
         finite = a[np.isfinite(a)] if a.dtype.kind == 'f' else a.ravel()
         if finite.size == 0:
             continue
